@@ -7,9 +7,8 @@ CONSTANTS MaxFlags, NInputs
 VARIABLES lang, fl, opts, inp, ty, how      \* ty = 0: flag case; otherwise row of TypeTable, how = index in Hows
 vars == <<lang, fl, opts, inp, ty, how>>
 
-\* rows whose failure is a pinned known finding (known/C16.txt: xhtml is mapped to the unregistered
-\* mimetype application/xhtml-xml); the pinned witness keeps it visible
-KnownBrokenTypes == {CHOOSE r \in TypeRows : TypeTable[r].type = "xhtml"}
+\* rows whose failure is a pinned known finding: none at present (xhtml fixed by b1ff844)
+KnownBrokenTypes == {}
 OptsOf(s) == [i \in 1..Len(s) |-> [opt |-> RowOf(s[i].flag).opt, val |-> s[i].val]]
 Init == \/ lang \in Langs /\ fl = <<>> /\ opts = <<>> /\ inp \in 1..NInputs /\ ty = 0 /\ how = 0
         \/ \E r \in TypeRows \ KnownBrokenTypes : /\ ty = r /\ lang = TypeTable[r].lang /\ how \in 1..Len(Hows)
